@@ -15,10 +15,10 @@ def gen_aba(rng):
     rule = [strat, retry, 1, 10000, 1, 0, bits(1.0 if strat == 2 else 0.5)]
     pre = [("B",), ("X", 1), ("A", retry + rng.pick([0, 0, 1]))]
     nt = rng.pick([2, 3])
-    progs = [[("B",)] + ([("X", rng.pick([0, 1]))] if rng.chance(0.5) else [])]
-    progs.append([("B",), ("X", 1)] + ([("B",)] if rng.chance(0.3) else []))
+    progs = [[("B", 0)] + ([("X", rng.pick([0, 1]))] if rng.chance(0.5) else [])]
+    progs.append([("B", 0), ("X", 1)] + ([("B", 0)] if rng.chance(0.3) else []))
     if nt == 3:
-        progs.append([("B",), ("X", rng.pick([0, 1]))])
+        progs.append([("B", 0), ("X", rng.pick([0, 1]))])
     steps = [(0, 0), (0, 0)] + [(1, 0)] * rng.pick([5, 6, 7, 8])
     if nt == 3 and rng.chance(0.5):
         steps.insert(2, (2, 0))
@@ -35,7 +35,7 @@ def gen_stale(rng):
     rule = [strat, retry, 1, 10000, 1, 0, bits(1.0 if strat == 2 else 0.5)]
     e_probe = rng.pick([1, 1, 0])
     e_stale = rng.pick([0, 0, 1])
-    progs = [[("B",), ("X", e_probe)], [("B",), ("X", e_stale)], [("B",), ("X", 1)]]
+    progs = [[("B", 0), ("X", e_probe)], [("B", 0), ("X", e_stale)], [("B", 0), ("X", 1)]]
     steps = [(1, 0), (1, 0)]                      # thread 1 is admitted while Closed and parks in its completion
     steps += [(2, 0)] * 6                         # thread 2 fails and trips the breaker
     steps += [(0, retry), (0, 0), (0, 0)]         # thread 0 probes after the deadline and parks in its completion
@@ -49,11 +49,33 @@ def gen_stale(rng):
     return {"base": base, "rule": rule, "pre": [], "progs": progs, "steps": steps}
 
 
+def gen_rollback(rng):
+    """a probe that a later slot rejects is parked before its exit hook while a completion admitted earlier decides"""
+    retry = rng.pick([1, 5, 100])
+    strat = rng.pick([1, 2])
+    base = 1_700_000_000_000 + rng.randrange(0, 10_000_000)
+    rule = [strat, retry, 1, 10000, 1, 0, bits(1.0 if strat == 2 else 0.5)]
+    e_stale = rng.pick([0, 0, 1])
+    progs = [[("B", 1)] + ([("B", 0)] if rng.chance(0.4) else []), [("B", 0), ("X", e_stale)], [("B", 0), ("X", 1)]]
+    steps = [(1, 0), (1, 0)]                      # thread 1 is admitted while Closed and parks in its completion
+    steps += [(2, 0)] * 6                         # thread 2 fails and trips the breaker
+    steps += [(0, retry), (0, 0), (0, 0)]         # thread 0 probes after the deadline; the later slot parks it
+    steps += [(1, 0), (1, 0), (1, 0)]             # thread 1's completion decides while the probe is parked
+    steps += [(0, 0), (0, 0)]
+    if rng.chance(0.5):
+        k = rng.randrange(2, len(steps))
+        steps.insert(k, (rng.randrange(3), 0))
+    steps += [(rng.randrange(3), rng.pick([0, 0, retry])) for _ in range(rng.pick([0, 2, 6]))]
+    return {"base": base, "rule": rule, "pre": [], "progs": progs, "steps": steps}
+
+
 def gen_case(rng, i):
     if i % 8 == 3:
         return gen_aba(rng)
     if i % 8 == 5:
         return gen_stale(rng)
+    if i % 8 == 7:
+        return gen_rollback(rng)
     strat = rng.pick([0, 1, 2, 2])
     retry = rng.pick([1, 1, 5, 20, 100, 1000])
     minr = rng.pick([0, 1, 1, 2, 3])
@@ -89,8 +111,9 @@ def gen_case(rng, i):
                 ops.append(("X", 1 if rng.chance(0.6) else 0))
                 opened -= 1
             else:
-                ops.append(("B",))
-                opened += 1
+                other = 1 if rng.chance(0.15) else 0
+                ops.append(("B", other))
+                opened += 1 - other
         if rng.chance(0.5):
             ops.append(("X", 1 if rng.chance(0.5) else 0))
         progs.append(ops)
@@ -173,7 +196,7 @@ class C16(PropBase):
         def b(x):
             return "true" if x else "false"
         pre = "[" + "; ".join("PB" if o[0] == "B" else ("PX %s" % b(o[1]) if o[0] == "X" else "PA %d" % o[1]) for o in c["pre"]) + "]"
-        progs = "[" + "; ".join("[" + "; ".join("KB" if o[0] == "B" else "KX %s" % b(o[1]) for o in p) + "]" for p in c["progs"]) + "]"
+        progs = "[" + "; ".join("[" + "; ".join("KB %s" % b(o[1]) if o[0] == "B" else "KX %s" % b(o[1]) for o in p) + "]" for p in c["progs"]) + "]"
         steps = "[" + "; ".join("(%d%%nat, %d)" % (t, d) for t, d in c["steps"]) + "]"
         r = c["rule"]
         rule = "(%d, %d, %d, %d, %d, %d, (%d)%%Z)" % tuple(r)
